@@ -135,7 +135,7 @@ func unitIDs(u *hist.Unit) []uint64 {
 }
 
 func checkC02(c *core.Ctx) {
-	c.SetRule("all sequences of length <= N (quick 3, thorough 4; length 5 sampled) over the 13 unit kinds {tx closed by XID, by COMMIT, rolled back, DDL, autocommitted row change, statement-format DML, rotation, GTID, anonymous GTID, previous-GTIDs, heartbeat, unknown event, unknown statement}, each streamed once through the real Streamer (alternating far-ahead / lock-step); random sequences of up to 40 units; all 352 casings of begin/commit/rollback through GetStatementCategory and through a stream; metamorphic runs with ignorable units inserted at every gap. Oracles: delivery list equals the model's grouping, id conservation (every committed change id exactly once, rolled-back ids never), handler entry after the commit event was sent. distinct by unit-kind sequence / index; non-trivial iff the sequence has >= 1 delivering unit")
+	c.SetRule("all sequences of length <= N (quick 3, thorough 5; length N+1 sampled) over the 13 unit kinds {tx closed by XID, by COMMIT, rolled back, DDL, autocommitted row change, statement-format DML, rotation, GTID, anonymous GTID, previous-GTIDs, heartbeat, unknown event, unknown statement}, each streamed once through the real Streamer (alternating far-ahead / lock-step); random sequences of up to 40 units; all 352 casings of begin/commit/rollback through GetStatementCategory and through a stream; metamorphic runs with ignorable units inserted at every gap. Oracles: delivery list equals the model's grouping, id conservation (every committed change id exactly once, rolled-back ids never), handler entry after the commit event was sent. distinct by unit-kind sequence / index; non-trivial iff the sequence has >= 1 delivering unit")
 	c.Assume("unknown statements are never strings whose first word is one of the twelve recognised keywords; DDL is never placed inside BEGIN..COMMIT; an autocommitted row change is one table map plus one rows event")
 	if c.Replay != "" {
 		var w struct {
@@ -151,7 +151,7 @@ func checkC02(c *core.Ctx) {
 		return
 	}
 	n := 0
-	maxLen := c.N(3, 4)
+	maxLen := c.N(3, 5)
 	nk := int(hist.NumUnitKinds)
 	var rec func(prefix []int)
 	rec = func(prefix []int) {
@@ -174,9 +174,6 @@ func checkC02(c *core.Ctx) {
 	r := c.Rng(core.StrID("c02long"))
 	for i := 0; i < c.N(300, 50000); i++ {
 		l := maxLen + 1
-		if !c.Quick() {
-			l = 5
-		}
 		kinds := make([]int, l)
 		for j := range kinds {
 			kinds[j] = r.Intn(nk)
@@ -186,7 +183,7 @@ func checkC02(c *core.Ctx) {
 			c02Run(c, c02Scn{Mode: "seq", Kinds: kinds, Index: n, Lock: r.Bool()})
 		}
 	}
-	for i := 0; i < c.N(200, 3000); i++ {
+	for i := 0; i < c.N(200, 20000); i++ {
 		l := 6 + r.Intn(35)
 		kinds := make([]int, l)
 		for j := range kinds {
